@@ -47,9 +47,12 @@ type Prog struct {
 	Max   uint32 `json:"max"`
 	Alloc bool   `json:"alloc"` // guarded allocator (else Go-heap memory)
 	Move  bool   `json:"move"`  // allocator moves the memory on every growth
-	P     uint32 `json:"p"`
-	C     uint32 `json:"c"`
-	Body  []Stmt `json:"body"`
+	// Mem: whose memory and of what kind: "" (defined here), "shared" (defined here, shared), "imported" (defined and
+	// exported by another module instantiated first), "imported-shared"
+	Mem  string `json:"mem,omitempty"`
+	P    uint32 `json:"p"`
+	C    uint32 `json:"c"`
+	Body []Stmt `json:"body"`
 }
 
 type opInfo struct {
@@ -199,7 +202,14 @@ func emit(ss []Stmt) []byte {
 func (p *Prog) wasmBytes() []byte {
 	m := wb.New()
 	mx := p.Max
-	m.Memory(p.Pages, &mx, false, "memory")
+	shared := p.Mem == "shared" || p.Mem == "imported-shared"
+	if strings.HasPrefix(p.Mem, "imported") {
+		m.M.ImportSection = append(m.M.ImportSection, wasm.Import{Type: wasm.ExternTypeMemory, Module: "owner", Name: "memory",
+			DescMem: &wasm.Memory{Min: p.Pages, Max: mx, IsMaxEncoded: true, IsShared: shared}})
+		m.M.ImportMemoryCount = 1
+	} else {
+		m.Memory(p.Pages, &mx, shared, "memory")
+	}
 	m.AddFunc(wb.Func{Params: []byte{wb.I32, wb.I32}, Results: []byte{wb.I64}, Export: "run",
 		Locals: []byte{wb.I32, wb.I32, wb.I64, wb.I32, wasm.ValueTypeV128},
 		Body:   wb.Cat(emit(p.Body), wb.LocalGet(lAcc))})
@@ -210,6 +220,14 @@ func (p *Prog) wasmBytes() []byte {
 }
 
 const segLen = 64
+
+// ownerBytes: the module that defines and exports the memory of an "imported" program.
+func (p *Prog) ownerBytes() []byte {
+	m := wb.New()
+	mx := p.Max
+	m.Memory(p.Pages, &mx, p.Mem == "imported-shared", "memory")
+	return m.Bytes()
+}
 
 // segBytes: the passive data segment of every program (source of memory.init)
 func segBytes() []byte {
